@@ -34,7 +34,7 @@ ASSUMPTIONS = [
 	"where |delta_in| < 1e-6 the ordinary derivative at the example's "
 	"pre-activation is the expected factor",
 ]
-REQUIRED = {"pairs_compared": 200, "units_with_ratio": 500,
+REQUIRED = {"prior_override_calls": 10, "pairs_compared": 200, "units_with_ratio": 500,
 	"units_with_zero_delta": 100, "affine_cases": 3}
 TECHNIQUE = ("runtime monitoring: independent layer-by-layer rescale-rule "
 	"reference compared element-wise with every observed deep_lift_shap "
@@ -59,6 +59,17 @@ def run_case(cls, params, rec):
 		"target": target}
 	kw = dict(target=target, batch_size=params["batch_size"], device="cpu",
 		references=refs)
+	rec.setadd("reference_kinds", params.get("refkind", "onehot"))
+	if params.get("prior_override_call"):
+		# call history: an earlier call that overrides the handlers of the
+		# built-in activations (plain gradient instead of the rescale rule)
+		# must not influence this one
+		def plain_handler(module, grad_input, grad_output):
+			return grad_input
+		ov = {t: plain_handler for t in dls.ACT_TYPES}
+		other = dls.build(spec, params["wseed"] + 5, "float")
+		gen.call(deep_lift_shap, other, X, additional_nonlinear_ops=ov, **kw)
+		rec.count("prior_override_calls")
 	st, mult = gen.call(deep_lift_shap, model, X, raw_outputs=True, **kw)
 	if st == "raise":
 		rec.violation(cls, params, dict(desc, what="deep_lift_shap raised",
@@ -186,7 +197,10 @@ def gen_case(seed, k):
 		"weights": "int" if k % 7 == 3 else "float", "n": n,
 		"n_shuffles": ns, "batch_size": r.choice([1, 2, 4, 9, 10, 32]),
 		"target": r.randrange(dls.n_targets(spec)), "near": r.random() < 0.5,
-		"iseed": r.randrange(10 ** 6)}
+		"iseed": r.randrange(10 ** 6),
+		"refkind": r.choice(["onehot", "onehot", "onehot", "zeros",
+		"uniform", "soft", "onehotN"]),
+		"prior_override_call": k % 4 == 1}
 
 
 def plan(tier, seed):
